@@ -57,10 +57,13 @@ const (
 	zzNearMiss // an invalid value that begins or ends like a valid one (N39, gtp5gx, 10.60.0.0/16x); for the
 	// node id: an IPv6 literal, which is a well-formed host but has no IPv4 address to resolve to
 	zzNearMiss2 // the other kind of near miss: a valid value with something in FRONT of it (xinfo, xN3, xgtp5g)
+	zzPadded    // a valid value with a blank behind it, quoted so that YAML keeps the blank ("10.60.0.0/16 ");
+	// for the numeric fields the quoted text is not a number (a decoding error); the DNN name has no
+	// syntax to violate, there the kind is just another name
 	zzNK
 )
 
-var zzKindName = [zzNK]string{"ok", "deleted", "emptied", "invalid", "mistyped", "alt-valid", "near-miss", "near-miss-prefix"}
+var zzKindName = [zzNK]string{"ok", "deleted", "emptied", "invalid", "mistyped", "alt-valid", "near-miss", "near-miss-prefix", "padded"}
 
 type zzDoc struct {
 	k [zzNF]int
@@ -81,6 +84,12 @@ func zzScalar(f, k int) (string, bool) {
 		zzFForwarder: "gtp5gx", zzFIfAddr: "127.0.0.8/24", zzFIfType: "N39", zzFIfMTU: "-1", zzFDnn: `""`, zzFCidr: "10.60.0.0/16x", zzFLevel: "infox"}
 	if k == zzNearMiss {
 		return near[f], true
+	}
+	if k == zzPadded {
+		if f == zzFDnn {
+			return "internet2", true
+		}
+		return `"` + good[f] + ` "`, true
 	}
 	if k == zzNearMiss2 {
 		near2 := near
@@ -132,7 +141,7 @@ func (d *zzDoc) render() string {
 		case zzDeleted:
 		case zzEmptied:
 			sb.WriteString(key + ":\n")
-		case zzInvalid, zzMistyped, zzNearMiss, zzNearMiss2:
+		case zzInvalid, zzMistyped, zzNearMiss, zzNearMiss2, zzPadded:
 			sb.WriteString(key + ": 5\n")
 		default:
 			sb.WriteString(key + ":\n")
@@ -153,7 +162,7 @@ func (d *zzDoc) render() string {
 		case zzDeleted:
 		case zzEmptied:
 			sb.WriteString("  ifList: []\n")
-		case zzInvalid, zzMistyped, zzNearMiss, zzNearMiss2:
+		case zzInvalid, zzMistyped, zzNearMiss, zzNearMiss2, zzPadded:
 			sb.WriteString("  ifList: 5\n")
 		default:
 			sb.WriteString("  ifList:\n")
@@ -170,7 +179,7 @@ func (d *zzDoc) render() string {
 	case zzDeleted:
 	case zzEmptied:
 		sb.WriteString("dnnList: []\n")
-	case zzInvalid, zzMistyped, zzNearMiss, zzNearMiss2:
+	case zzInvalid, zzMistyped, zzNearMiss, zzNearMiss2, zzPadded:
 		sb.WriteString("dnnList: 5\n")
 	default:
 		sb.WriteString("dnnList:\n")
@@ -222,7 +231,7 @@ func (d *zzDoc) decode(c *Config) bool {
 	c.Description = "UPF configuration"
 	switch d.k[zzFPfcp] {
 	case zzDeleted, zzEmptied:
-	case zzInvalid, zzMistyped, zzNearMiss, zzNearMiss2:
+	case zzInvalid, zzMistyped, zzNearMiss, zzNearMiss2, zzPadded:
 		return false
 	default:
 		p := &Pfcp{}
@@ -237,7 +246,7 @@ func (d *zzDoc) decode(c *Config) bool {
 			p.RetransTimeout = 3 * time.Second
 		case zzAltValid:
 			p.RetransTimeout = 1500 * time.Millisecond
-		case zzMistyped:
+		case zzMistyped, zzPadded:
 			return false
 		}
 		n, ok := num(zzFMaxRetrans, 255)
@@ -249,7 +258,7 @@ func (d *zzDoc) decode(c *Config) bool {
 	}
 	switch d.k[zzFGtpu] {
 	case zzDeleted, zzEmptied:
-	case zzInvalid, zzMistyped, zzNearMiss, zzNearMiss2:
+	case zzInvalid, zzMistyped, zzNearMiss, zzNearMiss2, zzPadded:
 		return false
 	default:
 		g := &Gtpu{}
@@ -260,7 +269,7 @@ func (d *zzDoc) decode(c *Config) bool {
 		case zzDeleted:
 		case zzEmptied:
 			g.IfList = []IfInfo{}
-		case zzInvalid, zzMistyped, zzNearMiss, zzNearMiss2:
+		case zzInvalid, zzMistyped, zzNearMiss, zzNearMiss2, zzPadded:
 			return false
 		default:
 			i := IfInfo{Name: "n3.upf"}
@@ -286,7 +295,7 @@ func (d *zzDoc) decode(c *Config) bool {
 	case zzDeleted:
 	case zzEmptied:
 		c.DnnList = []DnnList{}
-	case zzInvalid, zzMistyped, zzNearMiss, zzNearMiss2:
+	case zzInvalid, zzMistyped, zzNearMiss, zzNearMiss2, zzPadded:
 		return false
 	default:
 		e := DnnList{NatIfName: "eth0"}
@@ -303,7 +312,7 @@ func (d *zzDoc) decode(c *Config) bool {
 	}
 	switch d.k[zzFLogger] {
 	case zzDeleted, zzEmptied:
-	case zzInvalid, zzMistyped, zzNearMiss, zzNearMiss2:
+	case zzInvalid, zzMistyped, zzNearMiss, zzNearMiss2, zzPadded:
 		return false
 	default:
 		l := &Logger{Enable: true}
@@ -328,7 +337,7 @@ func (d *zzDoc) specAccepts() bool {
 	}
 	for f := 0; f < zzNF; f++ {
 		k := d.k[f]
-		if k == zzNone || k == zzAltValid {
+		if k == zzNone || k == zzAltValid || (f == zzFDnn && k == zzPadded) {
 			continue
 		}
 		switch f {
